@@ -158,6 +158,8 @@ def install_tripwires():
     real_sleep = _time.sleep
 
     def sleep(d):
+        if kernel.SLEEP_IS_NOOP:  # traced file-system children: back-offs return at once
+            return None
         if d and d > 0.002:
             raise kernel.HarnessError(f"real time.sleep({d}) reached inside the simulation")
         return real_sleep(d)
